@@ -284,6 +284,67 @@ def _spread_random(rng):
     return _idc(g, X, Y, doms, seed=rng.randrange(1 << 30), stream="spread_random")
 
 
+_TWO_DOMAIN_SEEDS = [
+    # chain A -> B -> C with A <-> C ; P*(C | do(B)) ; pi1 experiments on A, pi2 on A and B   (A=0 B=1 C=2 D=3)
+    {"g": {"nodes": [], "di": [[0, 1], [1, 2]], "bi": [[0, 2]]}, "X": [1], "Y": [2], "domains": [[[0], [1, 2]], [[0, 1], [2]]]},
+    {"g": {"nodes": [], "di": [[0, 2], [1, 0], [1, 2]], "bi": []}, "X": [1], "Y": [2], "domains": [[[0], [1, 2]], [[0, 1], [2]]]},
+    {"g": {"nodes": [], "di": [[0, 1], [3, 1]], "bi": [[0, 1]]}, "X": [0, 3], "Y": [1], "domains": [[[0], [1]], [[0, 3], [1]]]},
+    {"g": {"nodes": [], "di": [[0, 1], [1, 2], [3, 2]], "bi": [[0, 2]]}, "X": [1, 3], "Y": [2], "domains": [[[1], [2]], [[1, 3], [2]]]},
+]
+
+
+def _two_domain_case(rng):
+    """structured stream (campaign D): TWO source domains whose experiments both meet the target interventions, surrogate outcomes
+    generous (few selection nodes), so that SEVERAL domains pass line 6 of one call and each yields an estimand (`more than one
+    expression were non-none`).  Three shapes: (a) nested experiments Z1 < Z2 sharing a variable of X, (b) the same experiment
+    declared twice with different surrogate outcomes, (c) disjoint experiments on different variables of X (the shape on which a
+    second, nested use of line 6 would be possible); either insertion order"""
+    if rng.random() < 0.12:
+        s = rng.choice(_TWO_DOMAIN_SEEDS)
+        doms = [list(d) for d in s["domains"]]
+        if rng.random() < 0.5:
+            doms.reverse()
+        return _idc(s["g"], list(s["X"]), list(s["Y"]), doms, seed=rng.randrange(1 << 30), stream="two_domain")
+    while True:
+        g = G.rand_graph(rng, 3, 5, acyclic=True, pd=rng.choice([0.4, 0.6, 0.8]), pb=rng.choice([0.0, 0.15, 0.3]))
+        nodes = G.all_nodes(g)
+        if len(nodes) < 3:
+            continue
+        perm = nodes[:]
+        rng.shuffle(perm)
+        nx_ = rng.randint(1, min(3, len(nodes) - 1))
+        ny = rng.randint(1, min(2, len(nodes) - nx_))
+        X, Y = perm[:nx_], perm[nx_:nx_ + ny]
+        a = rng.choice(X)
+        shape = rng.random()
+        if shape < 0.5:           # (a) nested
+            pool = [v for v in nodes if v != a and v not in Y]
+            if not pool:
+                continue
+            pref = [v for v in pool if v in X] or pool
+            extra = {rng.choice(pref if rng.random() < 0.6 else pool)}
+            z1, z2 = sorted({a}), sorted({a} | extra)
+        elif shape < 0.7:         # (b) the same experiment twice
+            z1 = z2 = sorted({a} | ({rng.choice(X)} if rng.random() < 0.3 else set()))
+        else:                     # (c) disjoint experiments inside X
+            if len(X) < 2:
+                continue
+            b = rng.choice([v for v in X if v != a])
+            z1, z2 = [a], [b]
+
+        def outcomes(Z):
+            r = rng.random()
+            if r < 0.5:
+                return sorted(set(nodes) - set(Z))
+            if r < 0.8:
+                return sorted(set(Y) | {v for v in nodes if v not in Z and rng.random() < 0.5})
+            return sorted(Y)
+        doms = [[z1, outcomes(z1)], [z2, outcomes(z2)]]
+        if rng.random() < 0.5:
+            doms.reverse()
+        return _idc(g, sorted(X), sorted(Y), doms, seed=rng.randrange(1 << 30), stream="two_domain")
+
+
 def _rand_malformed(rng):
     c = _rand_identify(rng, 5)
     kind = rng.choice(["overlap", "outside", "keys", "outside_dom"])
@@ -385,6 +446,10 @@ def cases(rng: random.Random, tier: str):
                 c["pop"] = rng.choice([TARGET + 1, TARGET + 2])
                 c["eval_seed"] = rng.randrange(1 << 30)
         out.append(c)
+    # streams added by mutation campaign D are appended, so that the streams above stay the cases they were
+    n_two = {"quick": 500, "escalated": 1200}.get(tier, 4000)
+    for _ in range(n_two):
+        out.append(_two_domain_case(rng))
     return out
 
 
@@ -574,6 +639,12 @@ def _run_identify(case):
                         f"(De(Z)-W) u (C(W)-An(W) in G[bar Z]) gives {sorted(exp)}")
                 tags["nodes_rule_violated"] = True
                 break
+    # (e2) the selection diagram the call derives for every declared domain = the graph plus one parentless selection node T_v -> v
+    #      for exactly the variables the rule marks (get_nodes_to_transport alone is compared above; here: what is done with it)
+    if valid and fail is None and doms:
+        fail = _diagrams_fail(case, graph, X, Y, so, si)
+        if fail:
+            tags["diagram_rule_violated"] = True
     # (b) no usable surrogate experiment: verdict must be ID's
     if valid and fail is None and all(not Z for Z, _ in doms):
         tags["no_surrogate"] = True
@@ -584,7 +655,51 @@ def _run_identify(case):
         if idr != "?" and (idr is None) != (out[0] == "none"):
             fail = (f"no surrogate experiment is usable, but TRSO returned {'no estimand' if out[0] == 'none' else 'an estimand'} "
                     f"while ID returned {'no estimand' if idr is None else str(idr)[:200]}")
+    # (b') 'no estimand' although ID returns one.  From the second sentence of the property: either no declared experiment is usable -
+    #      then the verdict must be ID's - or one is usable, and using it IS returning an estimand; in both readings 'no estimand'
+    #      where ID has an estimand contradicts the statement (TRSO contains ID's lines 1-7 as its lines 1-4, 8-11)
+    if valid and fail is None and out[0] == "none" and any(Z for Z, _ in doms):
+        try:
+            idr = identify_outcomes(graph, treatments=X, outcomes=Y)
+        except Exception:  # ID's own crash is not C05's business
+            idr = None
+        if idr is not None:
+            tags["none_but_id_identifies"] = True
+            fail = ("TRSO returned no estimand although ID returns " + str(idr)[:200] + ": if no declared experiment is usable the "
+                    "verdict must be ID's, and a usable one yields an estimand")
     return {"out": out, "fail": fail, "nontrivial": nontrivial, "tags": tags}
+
+
+def _diagrams_fail(case, graph, X, Y, so, si):
+    from y0.algorithm import transport as T
+    stt = getattr(T, "surrogate_to_transport", None)
+    if stt is None:
+        return None
+    g = case["g"]
+    nodes = G.all_nodes(g)
+    try:
+        tq = stt(graph=graph, target_outcomes=set(Y), target_interventions=set(X), surrogate_outcomes=so, surrogate_interventions=si)
+        graphs = tq.graphs
+    except Exception as e:  # noqa: BLE001
+        return f"surrogate_to_transport raised {type(e).__name__} on an input inside the quantifier"
+    for k, (Z, W) in enumerate(case["domains"]):
+        dg = graphs.get(_pop(TARGET + 1 + k))
+        if dg is None:
+            return f"no selection diagram was derived for domain {k + 1}"
+        try:
+            got = C.canon_graph(["graph", [str(G.vint(n)) for n in dg.nodes()],
+                                 [[str(G.vint(u)), str(G.vint(v))] for u, v in dg.directed.edges()],
+                                 [[str(G.vint(u)), str(G.vint(v))] for u, v in dg.undirected.edges()]])
+        except Exception as e:  # noqa: BLE001
+            return f"selection diagram of domain {k + 1} has a node that is neither a variable nor a selection node ({type(e).__name__})"
+        S = sorted(FE.nodes_may_differ(g, Z, W))
+        exp = C.canon_graph(["graph", [str(v) for v in nodes] + [str(200 + s) for s in S],
+                             [[str(u), str(v)] for u, v in g["di"]] + [[str(200 + s), str(s)] for s in S],
+                             [[str(u), str(v)] for u, v in g["bi"]]])
+        if got != exp:
+            return (f"selection diagram derived for domain {k + 1} (Z={sorted(Z)}, W={sorted(W)}) is not the graph plus one parentless "
+                    f"selection node T_v -> v for v in {S} (the rule (De(Z)-W) u (C(W)-An(W) in G[bar Z])): got {json.dumps(got)[:300]}")
+    return None
 
 
 # ---- helpers -------------------------------------------------------------------------------------------------------
